@@ -73,6 +73,7 @@ func checkC10(e *Engine, r *Report) {
 	}
 	r.NotDecided = []string{"JSON fidelity of nested NRI/Kubernetes types", "atomicity of rename(2) against process kill (OS assumption); durability against power loss is not part of the property"}
 	r.Assumptions = []string{"rename(2) atomically replaces the destination", "encoding/json round-trips exported fields of the repository's own types"}
+	checkErrorPolarity(e, r, "R3 replace-by-rename only", pkgCA)
 
 	fFilePath := e.Field(pkgCA, "cache", "filePath")
 	save := r.Anchor(pkgCA, "cache.Save")
@@ -144,6 +145,39 @@ func checkC10(e *Engine, r *Report) {
 			}
 		})
 	}
+	// the cache file path handed to a repository helper: accepted only for a helper that writes a file completely from
+	// scratch (opens with O_WRONLY|O_CREATE|O_TRUNC and writes its data argument) and only for the temporary name
+	for _, fn := range e.funcsInPkg(pkgCA) {
+		AllInstrs(fn, func(in ssa.Instruction) {
+			ci, ok := in.(ssa.CallInstruction)
+			if !ok {
+				return
+			}
+			callee := ci.Common().StaticCallee()
+			if callee == nil || callee.Pkg == nil || !isRepoPath(callee.Pkg.Pkg.Path()) || len(callee.Blocks) == 0 {
+				return
+			}
+			for ai, a := range ci.Common().Args {
+				if b, ok := a.Type().Underlying().(*types.Basic); !ok || b.Kind() != types.String {
+					continue
+				}
+				k := classifyPath(a, fFilePath)
+				if k == pathOther || callee == checkPerm || callee == mkdirAll {
+					continue
+				}
+				nfp++
+				okH, why := completeWriteHelper(callee, ai)
+				if okH && k != pathSuffix {
+					okH, why = false, "the cache file itself (not the temporary file) is handed to a writing helper"
+				}
+				if okH {
+					writeTmp = ci
+				}
+				r.Check("R3:filepath-use@"+FnName(fn)+"#"+callee.Name()+fmt.Sprintf("[arg%d]", ai), "R3 replace-by-rename only", "the cache file is only read, or replaced by renaming a completely written temporary file over it",
+					e.InstrPos(in), fn, okH, why, true)
+			}
+		})
+	}
 	r.MinInstances("uses of cache.filePath in os calls", nfp, 4)
 	if writeTmp == nil || renameCall == nil {
 		r.Undecided("R3:save-shape", "R3 replace-by-rename only", "Save writes a temporary file and renames it over the cache file", e.Pos(save.Pos()), save, "WriteFile/Rename pair not found")
@@ -156,7 +190,17 @@ func checkC10(e *Engine, r *Report) {
 		// same temporary path in both calls
 		r.Check("R3:same-temp-path", "R3 replace-by-rename only", "the file renamed is the file that was written", e.InstrPos(renameCall), save,
 			writeTmp.Common().Args[0] == renameCall.Common().Args[0] || sameValue(writeTmp.Common().Args[0], renameCall.Common().Args[0]), "", true)
-		okData := originAll(writeTmp.Common().Args[1], func(v ssa.Value) bool {
+		dataArg := writeTmp.Common().Args[1]
+		if callee := writeTmp.Common().StaticCallee(); callee != nil && callee.Pkg != nil && callee.Pkg.Pkg.Path() != "os" {
+			for i, a := range writeTmp.Common().Args {
+				if sl, ok := a.Type().Underlying().(*types.Slice); ok {
+					if b, ok := sl.Elem().Underlying().(*types.Basic); ok && b.Kind() == types.Byte {
+						dataArg = writeTmp.Common().Args[i]
+					}
+				}
+			}
+		}
+		okData := originAll(dataArg, func(v ssa.Value) bool {
 			ex, ok := v.(*ssa.Extract)
 			if !ok || ex.Index != 0 {
 				return false
@@ -698,4 +742,56 @@ func constNameIs(e *Engine, k *ssa.Const, name string) bool {
 		return false
 	}
 	return constant.Compare(k.Value, token.EQL, c.Val())
+}
+
+// completeWriteHelper: fn opens the file named by its parameter #pathIdx with O_WRONLY|O_CREATE|O_TRUNC and writes a
+// []byte parameter into it — an os.WriteFile equivalent.
+func completeWriteHelper(fn *ssa.Function, pathIdx int) (bool, string) {
+	const oWRONLY, oCREATE, oTRUNC = 0x1, 0x40, 0x200
+	var open *ssa.Call
+	wrote := false
+	AllInstrsOf(fn, func(in ssa.Instruction) {
+		c, ok := in.(*ssa.Call)
+		if !ok {
+			return
+		}
+		callee := c.Common().StaticCallee()
+		if callee == nil {
+			return
+		}
+		switch callee.String() {
+		case "os.OpenFile":
+			if paramIndex(c.Common().Args[0]) == pathIdx {
+				open = c
+			}
+		case "(*os.File).Write":
+			if pi := paramIndex(c.Common().Args[1]); pi >= 0 {
+				wrote = true
+			}
+		case "os.WriteFile":
+			if paramIndex(c.Common().Args[0]) == pathIdx && paramIndex(c.Common().Args[1]) >= 0 {
+				open, wrote = c, true
+			}
+		}
+	})
+	if open == nil {
+		return false, "not a recognised complete-write helper (no os.OpenFile/os.WriteFile on the path parameter)"
+	}
+	if open.Common().StaticCallee().String() == "os.WriteFile" {
+		return true, ""
+	}
+	fl, ok := constIntVal(open.Common().Args[1])
+	if !ok {
+		return false, "the helper opens the file with non-constant flags"
+	}
+	if fl&oTRUNC == 0 {
+		return false, "the helper opens the temporary file without O_TRUNC: remains of an earlier, interrupted save survive beyond the new data"
+	}
+	if fl&oCREATE == 0 || fl&oWRONLY == 0 {
+		return false, "the helper does not open the file with O_WRONLY|O_CREATE"
+	}
+	if !wrote {
+		return false, "the helper does not write its data parameter"
+	}
+	return true, ""
 }
